@@ -162,7 +162,10 @@ def _topo_case(draw, tier):
         rank = draw(st.permutations(list(range(n))))
         edges = [[a, b] for a, b in edges if rank[a] < rank[b]]
     eorder = draw(st.permutations(edges)) if edges else []
-    ops = draw(st.lists(st.tuples(st.sampled_from(["all", "one"]), ORDER).map(list),
+    # third field: what the caller does with the returned lists before the next call
+    # (0 nothing, 1 reverses / extends an ordering in place, 2 empties the result)
+    ops = draw(st.lists(st.tuples(st.sampled_from(["all", "one"]), ORDER,
+                                  st.sampled_from([0, 0, 1, 2])).map(list),
                         min_size=1, max_size=4))
     return {"engine": NAME, "kind": "topo", "n": n, "vorder": list(vorder),
             "edges": [list(e) for e in eorder], "ops": ops}
@@ -245,7 +248,9 @@ def _exec_topo(run, case):
     run.probe("cyclic" if not expected else "acyclic")
     if len(expected) > 1:
         run.probe("several_orderings")
-    for idx, (fn, order) in enumerate(case["ops"]):
+    for idx, op in enumerate(case["ops"]):
+        fn, order = op[0], op[1]
+        use = op[2] if len(op) > 2 else 0
         ORACLE.begin(order)
         if fn == "all":
             got = topo.toposort_all(graph)
@@ -263,6 +268,20 @@ def _exec_topo(run, case):
                               f"got {got}, {len(expected)} valid orderings exist")
             obs = None if got is None else 1
         _note_order(run)
+        if use and got is not None:
+            # the returned lists belong to the caller, who may do anything with them
+            run.probe("caller_modified_result")
+            ORACLE.begin(0)
+            if fn == "all" and use == 1:
+                for ordering in got[:1]:
+                    ordering.reverse()
+                    ordering.append("extra")
+            elif fn == "all":
+                del got[:]
+            elif use == 1:
+                got.reverse()
+            else:
+                del got[:]
         now = {v: sorted(s._ord) for v, s in graph.items()}
         if now != snapshot or list(graph) != vertices:
             # not forbidden by the statement: the consequences (later calls of this history
@@ -484,7 +503,8 @@ def describe(pid):
                     "order, drawn edge insertion order, optional self-loops, optionally filtered "
                     "to be acyclic; a history of 1-4 toposort_all / toposort calls on the same "
                     "graph object, each under a drawn iteration order of `set(graph)` and of "
-                    "every successor set; results compared with permutation filtering and the "
+                    "every successor set, after which the caller may reverse/extend/empty the lists it "
+                    "was handed; results compared with permutation filtering and the "
                     "graph with its snapshot. Non-trivial: an order was permuted or more than "
                     "one call ran on the graph; distinct = distinct case digest.",
             "real": common_real,
@@ -492,7 +512,7 @@ def describe(pid):
             "assumptions": ["successor sets only mention vertices that are keys of the graph",
                             "seeded sampling, not exhaustive enumeration"],
             "probes_expected": ["order_permuted", "self_loop", "cyclic", "acyclic",
-                                "several_orderings"],
+                                "several_orderings", "caller_modified_result"],
         }
     return {
         "rule": "Hypothesis-drawn cases of three kinds: (1) DisjointSet histories of 1-7 (10) "
